@@ -106,6 +106,7 @@ class NumPathsOptimization(pathmodel.AbstractPathModelDAG): # Note that we inher
         
         self.lowerbound_k = None
         self._solution = None
+        self._is_solved = False
         self.solve_statistics = None
 
         utils.logger.info(f"{__name__}: created NumPathsOptimization with model_type = {model_type}")
